@@ -229,6 +229,30 @@ fn stream_write_all_plumbing() {
     vk::vk_cover!(r.is_ok() && w.calls == 2, "two runs delivered");
 }
 
+// ---- `core::fmt::write` as an uninterpreted formatter --------------------------------------
+//
+// CBMC does not finish on the real `core::fmt::write` (its `fmt::Arguments` function pointers
+// may target every formatting function in the crate graph).  What a caller of `fmt::write` may
+// rely on is its documented contract: the rendered text arrives as a sequence of `write_str`
+// calls on `output`, in order; the first `write_str` error stops the rendering and is returned; a
+// formatting trait may also fail on its own.  The stand-ins below have exactly that shape with
+// two fixed fragments (Kani: `kani::stub(core::fmt::write, ..)`; the native replay build runs the
+// real `fmt::write` on a format string that renders to the same two fragments).
+
+pub(crate) static FRAG1: &str = "ab";
+pub(crate) static FRAG2: &str = "c";
+
+pub(crate) fn fmt_write_two_fragments(output: &mut dyn core::fmt::Write, _args: core::fmt::Arguments<'_>) -> core::fmt::Result {
+    output.write_str(FRAG1)?;
+    output.write_str(FRAG2)
+}
+
+/// a formatting trait that fails after the first fragment (no error from `output`)
+pub(crate) fn fmt_write_failing_trait(output: &mut dyn core::fmt::Write, _args: core::fmt::Arguments<'_>) -> core::fmt::Result {
+    output.write_str(FRAG1)?;
+    Err(core::fmt::Error)
+}
+
 struct FailingDisplay;
 impl std::fmt::Display for FailingDisplay {
     fn fmt(&self, _: &mut std::fmt::Formatter<'_>) -> std::fmt::Result {
@@ -238,19 +262,31 @@ impl std::fmt::Display for FailingDisplay {
 
 /// formatted writes: each fragment goes through write_all in order; an inner error is saved across
 /// the fmt::Write boundary and returned with its kind; a formatter error without inner error is Other
-#[cfg_attr(kani, kani::proof, kani::unwind(8), kani::stub(crate::adapter::strip::next_bytes, crate::adapter::verif_kani_strip_scan::next_bytes_recorder))]
+#[cfg_attr(kani, kani::proof, kani::unwind(8),
+    kani::stub(crate::adapter::strip::next_bytes, crate::adapter::verif_kani_strip_scan::next_bytes_recorder),
+    kani::stub(core::fmt::write, fmt_write_two_fragments))]
 #[cfg_attr(not(kani), test)]
 fn stream_write_fmt_plumbing() {
     let entry = any_state();
     let mut st = strip_bytes_in_state(entry);
     let mut w = AllWriter { calls: 0, args: [(0, 0); 6], fail_at: vk::any_usize_in(0, 6), kind: ErrorKind::WouldBlock };
-    // two literal pieces around an argument-free escape `{{`: fmt::write calls write_str per piece
-    // (formatting *arguments* pulls in core::fmt's padding machinery, which CBMC does not finish)
-    let (f1, f2) = ("ab", "c");
+    let (f1, f2) = (FRAG1, FRAG2);
     let r = write_fmt(&mut w, &mut st, format_args!("{f1}{f2}"));
     // scanned input: fragment 1 entirely, then fragment 2 entirely (unless an error stopped it)
     let c0 = rec(0);
     assert!(rec_n() >= 1 && c0.in_ptr == f1.as_ptr() as usize && c0.in_len == 2 && c0.in_state == entry, "write_fmt strips the first fragment from the carried state");
+    // every scanner call continues either the same fragment or starts the second one with the carried state
+    let mut j = 1;
+    while j < REC_MAX {
+        if j < rec_n() {
+            let c = rec(j);
+            let p = rec(j - 1);
+            let continues = c.in_ptr == p.in_ptr + p.k + p.n && c.in_len == p.in_len - p.k - p.n;
+            let starts_second = p.in_ptr + p.k + p.n == f1.as_ptr() as usize + 2 && c.in_ptr == f2.as_ptr() as usize && c.in_len == 1;
+            assert!((continues || starts_second) && c.in_state == p.out_state, "write_fmt scans the fragments in order, each to its end, carrying the state across fragments");
+        }
+        j += 1;
+    }
     match &r {
         Ok(()) => {
             assert!(w.fail_at >= w.calls, "write_fmt succeeds only if no inner write failed");
@@ -269,12 +305,15 @@ fn stream_write_fmt_plumbing() {
     vk::vk_cover!(r.is_ok() && w.calls >= 2, "both fragments delivered");
 }
 
-#[cfg_attr(kani, kani::proof, kani::unwind(8), kani::stub(crate::adapter::strip::next_bytes, crate::adapter::verif_kani_strip_scan::next_bytes_recorder))]
+#[cfg_attr(kani, kani::proof, kani::unwind(8),
+    kani::stub(crate::adapter::strip::next_bytes, crate::adapter::verif_kani_strip_scan::next_bytes_recorder),
+    kani::stub(core::fmt::write, fmt_write_failing_trait))]
 #[cfg_attr(not(kani), test)]
 fn stream_write_fmt_formatter_error() {
     let mut st = strip_bytes_in_state(State::Ground);
     let mut w = AllWriter { calls: 0, args: [(0, 0); 6], fail_at: 99, kind: ErrorKind::WouldBlock };
-    let r = write_fmt(&mut w, &mut st, format_args!("{}", FailingDisplay));
+    let f1 = FRAG1;
+    let r = write_fmt(&mut w, &mut st, format_args!("{f1}{}", FailingDisplay));
     assert!(matches!(&r, Err(e) if e.kind() == ErrorKind::Other), "a formatter error without inner error is reported as Other, never as success");
 }
 
